@@ -97,12 +97,22 @@ var c14ACLs = [][]*security.AccessControl{
 }
 
 func (w *c14World) jobJSON(id string, paused bool, jobType string) []byte {
+	return w.jobJSONh(id, paused, jobType, false)
+}
+
+func (w *c14World) jobJSONh(id string, paused bool, jobType string, handlers bool) []byte {
 	h := w.h
+	trig := map[string]interface{}{"triggerType": "cron", "jobType": jobType, "schedule": "0 0 1 1 *"}
+	if handlers {
+		trig["onError"] = []interface{}{
+			map[string]interface{}{"errorHandler": "reRun", "retryDelay": 7, "maxRetries": 2},
+			map[string]interface{}{"errorHandler": "log", "maxItems": 5}}
+	}
 	cfg := map[string]interface{}{
 		"id": id, "title": id, "paused": paused, "batchSize": 2,
 		"source":   map[string]interface{}{"Type": "DatasetSource", "Name": h.DsName("A")},
 		"sink":     map[string]interface{}{"Type": "DatasetSink", "Name": h.DsName("J")},
-		"triggers": []interface{}{map[string]interface{}{"triggerType": "cron", "jobType": jobType, "schedule": "0 0 1 1 *"}},
+		"triggers": []interface{}{trig},
 	}
 	b, _ := json.Marshal(cfg)
 	return b
@@ -175,7 +185,7 @@ func (w *c14World) apply(op c14Op) (skip bool, err error) {
 		if w.jobs[op.Job] {
 			return true, nil
 		}
-		cfg, err := w.jw.Sched.Parse(w.jobJSON(op.Job+"-"+h.Tag, op.N == 1, map[bool]string{false: "incremental", true: "fullsync"}[op.N == 2]))
+		cfg, err := w.jw.Sched.Parse(w.jobJSONh(op.Job+"-"+h.Tag, op.N == 1, map[bool]string{false: "incremental", true: "fullsync"}[op.N == 2], op.N == 3))
 		if err != nil {
 			return false, err
 		}
@@ -638,6 +648,7 @@ func c14Alphabet(wide bool) []c14Op {
 			c14Op{K: "create", DS: "B"},
 			c14Op{K: "addjob", Job: "j2", N: 1},
 			c14Op{K: "addjob", Job: "j3", N: 2},
+			c14Op{K: "addjob", Job: "j4", N: 3},
 			c14Op{K: "unpause", Job: "j1"},
 			c14Op{K: "unpause", Job: "j2"},
 			c14Op{K: "run", Job: "j3"},
